@@ -53,7 +53,10 @@ def request : P String := do
       else pure (toString (storageSize v))
   | "sidx" => do
       let v ← pVar; let I ← list nat
-      if I.length ≠ v.shape.length then pure "err-value"
+      if v.shape ≠ [] && v.sym then
+        -- sym_index_to_seq does no range check
+        (if I.length ≠ 2 then pure "err-TypeError" else pure (toString (storageIndex v I)))
+      else if I.length ≠ v.shape.length then pure "err-value"
       else if v.shape ≠ [] && !(decide (Pyiga.Index.toSeq I v.shape < prod v.shape) && (List.zipWith (fun a b => decide (a < b)) I v.shape).all id) then
         pure "err-value"
       else pure (toString (storageIndex v I))
